@@ -19,7 +19,7 @@ QUICK_CFGS = [
     "memory", "localdisk", "filesvfs", "diskpacked", "diskpacked[max=300]",
     "blobpacked", "encrypt", "replica(gate,gate)", "replica[min=1](gate,gate,gate)", "shard(gate,gate)", "cond",
     "overlay", "overlay[pre=all]", "overlay[pre=half]", "overlay[nodeleted=1]", "namespace", "namespace[hide=all]",
-    "proxycache[pre=all;cache=20]", "proxycache[pre=half]", "proxycache[cache=20]", "proxycache", "union(gate,gate,gate)",
+    "proxycache[pre=all;cache=20]", "proxycache[pre=half]", "proxycache[cache=20]", "proxycache", "union(gate,gate,gate)", "union(localdisk,filesvfs)",
     "replica(shard,shard)", "overlay(gate,blobpacked)", "namespace(encrypt)", "proxycache[cache=80](replica)",
     "proxycache(gate[nosub=1])",
 ]
